@@ -77,6 +77,12 @@ def dump(obj, depth=0):
         return [type(obj).__name__, sorted((dump(x, depth + 1) for x in obj), key=jkey)]
     if isinstance(obj, dict):
         return [type(obj).__name__, [[dump(k, depth + 1), dump(v, depth + 1)] for k, v in obj.items()]]
+    import dataclasses as _dc
+    if _dc.is_dataclass(obj) and not isinstance(obj, type):
+        # declared fields only: cached properties stored in the instance dict are not observable state
+        return [type(obj).__name__, [[f.name, dump(getattr(obj, f.name, None), depth + 1)] for f in _dc.fields(obj)]]
+    if hasattr(obj, '__next__') or type(obj).__name__ == 'generator':
+        return ['generator', '<not consumed>']
     d = getattr(obj, '__dict__', None)
     if d is not None:
         return [type(obj).__name__, [[k, dump(v, depth + 1)] for k, v in sorted(d.items())]]
